@@ -21,13 +21,18 @@ def run(ck):
             "text-to-binary conversion happens only through inet_pton in GetIPv4/GetIPv6 with a rejection arm on its result; binary-to-text "
             "only through inet_ntop", 3)
 
-    targets = [lib.single(prog, P + "Address::init")]
-    targets += [f for f in prog.find(P + "Port::Port", 1) if f.params and "string" in f.params[0]["type"]]
-    ck.require(len(targets) == 2, "Port(const std::string&) / Address::init not found")
+    def in_net(f):
+        return f.file.endswith("/common/net.cc") or f.file.endswith("/pistache/net.h")
+    CONVS = ("strtol", "strtoul", "strtoll", "std::stol", "std::stoi", "std::stoul", "atoi", "atol", "std::strtol", "sscanf")
+    # every function of the address/port parser that narrows a converted number to a port (Port(const std::string&), Address::init or
+    # the helper it delegates to)
+    targets = [f for f in prog.library_funcs() if in_net(f) and
+               [e for e in f.events("cast") if (e.get("to") or "").replace("std::", "") in ("uint16_t", "unsigned short")] and
+               [e for e in f.calls(lambda e: (e.get("callee") or "") in CONVS)]]
+    ck.require(len(targets) >= 2, "functions that convert text to a port number: %d found" % len(targets))
     for f in targets:
         casts = [e for e in f.events("cast") if (e.get("to") or "").replace("std::", "") in ("uint16_t", "unsigned short")]
-        ck.require(casts, "no narrowing cast to uint16_t in %s" % f.name)
-        convs = [e for e in f.calls(lambda e: (e.get("callee") or "") in ("strtol", "strtoul", "strtoll", "std::stol", "std::stoi", "std::stoul", "atoi", "atol", "std::strtol", "sscanf"))]
+        convs = [e for e in f.calls(lambda e: (e.get("callee") or "") in CONVS)]
         for c in casts:
             src = (c.get("sub") or {}).get("v")
             d = [x for x in f.events("decl") if x.get("var") == src]
@@ -66,38 +71,63 @@ def run(ck):
             ck.ob("C19-R1", "%s/range-checked-narrowing" % f.base.replace(P, ""), conv_ok and guard_ok, c.loc, f, detail)
 
     # ---------------- R2 ----------------
-    pc = targets[1]
-    et = [b for b in pc.blocks.values() if b.term and b.term.get("k") == "if" and "empty" in (b.term.get("cond") or "") and (b.term.get("core") or {}).get("root") == pc.params[0]["name"]]
-    conv = [e for e in pc.calls(lambda e: (e.get("callee") or "") in ("strtol", "std::strtol"))]
-    ok = bool(et) and bool(conv) and all(cfg.edge_dominates(pc, et[0].id, 1, e) for e in conv) and \
-        any(e["k"] == "throw" and "invalid_argument" in (e.get("type") or "") for e in cfg.events_from_block(pc, et[0].succs[0], stop=lambda e: e["k"] == "throw"))
-    ck.ob("C19-R2", "Port::Port/empty-rejected-before-conversion", ok, pc.loc, pc, "data.empty() throws invalid_argument before strtol")
-    ai = targets[0]
-    pe = [b for b in ai.blocks.values() if b.term and b.term.get("k") == "if" and "empty" in (b.term.get("cond") or "") and (b.term.get("core") or {}).get("root") in {x["var"] for x in ai.events("decl") if x.get("icall") == P + "AddressParser::rawPort"}]
-    hc = [b for b in ai.blocks.values() if b.term and b.term.get("k") == "if" and "c:" + P + "AddressParser::hasColon" in (b.term.get("refs") or [])]
-    ok = bool(pe) and bool(hc) and cfg.edge_dominates(ai, pe[0].id, 0, hc[0].elems[-1] if hc[0].elems else None) if (pe and hc and hc[0].elems) else False
-    thr = [e for e in cfg.events_from_block(ai, hc[0].succs[0], stop=lambda e: e["k"] == "throw") if e["k"] == "throw" and "invalid_argument" in (e.get("type") or "")] if hc else []
-    dflt = [e for e in (cfg.events_from_block(ai, hc[0].succs[1]) if hc else []) if e["k"] in ("call", "assign") and "HTTP_STANDARD_PORT" in (e.get("t") or "")]
-    lit = [e for e in (cfg.events_from_block(ai, hc[0].succs[1], stop=lambda e: False) if hc else []) if e["k"] in ("call", "assign") and strip_tmpl(((e.get("recv") or e.get("lhs") or {}).get("f") or "")) == P + "Address::port_"]
-    ck.ob("C19-R2", "Address::init/empty-port-after-colon-rejected", ok and bool(thr), ai.loc, ai, "portPart.empty() && hasColon() throws invalid_argument")
-    ck.ob("C19-R2", "Address::init/default-port-constant", bool(dflt), dflt[0].loc if dflt else ai.loc, ai, "port_ = Const::HTTP_STANDARD_PORT when no port is given")
+    # (a) no conversion of an empty string: every strtol in these functions is reached only on an edge that knows `.empty()` is false
+    for f in targets:
+        nonempty = lib.result_edges(f, "std::basic_string::empty", False)
+        for e in f.calls(lambda e: (e.get("callee") or "") in ("strtol", "std::strtol")):
+            ok = any(cfg.edge_dominates(f, bid, k, e) for bid, k in nonempty)
+            ck.ob("C19-R2", "%s/empty-never-converted" % f.base.replace(P, ""), ok, e.loc, f,
+                  "strtol is reached only when the port text is not empty" if ok else "an empty port string reaches strtol and is accepted as port 0")
+    pcs = [f for f in targets if f.base == P + "Port::Port"]
+    for pc in pcs:
+        emp = lib.result_edges(pc, "std::basic_string::empty", True)
+        ok = bool(emp) and all(not [x for x in cfg.exits_without(pc, lambda e: e["k"] == "throw" and "invalid_argument" in (e.get("type") or ""), start_block=pc.blocks[bid].succs[k]) if x.kind != "throw"]
+                               for bid, k in emp)
+        ck.ob("C19-R2", "Port::Port/empty-rejected-before-conversion", ok, pc.loc, pc, "data.empty() throws invalid_argument before strtol")
+    # (b) the function that decides what a missing port means (it asks the parser hasColon()): colon without port -> invalid_argument,
+    # no colon -> the standard port
+    hcf = [f for f in prog.library_funcs() if in_net(f) and [e for e in f.calls(lambda e: (e.get("callee") or "") == P + "AddressParser::hasColon")]]
+    ck.require(hcf, "no caller of AddressParser::hasColon")
+    for ai in hcf:
+        colon = lib.result_edges(ai, P + "AddressParser::hasColon", True)
+        nocolon = lib.result_edges(ai, P + "AddressParser::hasColon", False)
+        empt = lib.result_edges(ai, "std::basic_string::empty", True)
+        ck.require(colon and nocolon, "hasColon() test not found in %s" % ai.base)
+        thr_ok = all(not [x for x in cfg.exits_without(ai, lambda e: e["k"] == "throw" and "invalid_argument" in (e.get("type") or ""), start_block=ai.blocks[bid].succs[k]) if x.kind != "throw"]
+                     for bid, k in colon)
+        hc_call = [e for e in ai.calls(lambda e: (e.get("callee") or "") == P + "AddressParser::hasColon")]
+        nonempty = lib.result_edges(ai, "std::basic_string::empty", False)
+        # the colon test concerns the empty-port case only: it is reached on the `.empty()` edge, or not reachable from the non-empty one
+        reached_on_empty = all(any(cfg.edge_dominates(ai, bid, k, e) for bid, k in empt) or
+                               not any(any(x is e for x in cfg.events_from_block(ai, ai.blocks[bid].succs[k])) for bid, k in nonempty) for e in hc_call) and bool(empt or nonempty)
+        ck.ob("C19-R2", "Address::init/empty-port-after-colon-rejected", thr_ok and reached_on_empty, ai.loc, ai, "portPart.empty() && hasColon() throws invalid_argument")
+        dflt = [e for bid, k in nocolon for e in cfg.events_from_block(ai, ai.blocks[bid].succs[k]) if e["k"] in ("call", "assign", "construct", "return") and "HTTP_STANDARD_PORT" in (e.get("t") or "")]
+        ck.ob("C19-R2", "Address::init/default-port-constant", bool(dflt), dflt[0].loc if dflt else ai.loc, ai, "port_ = Const::HTTP_STANDARD_PORT when no port is given")
     ap = [f for f in prog.find(P + "AddressParser::AddressParser", 1)][0]
     pt = [b for b in ap.blocks.values() if b.term and b.term.get("k") == "if" and "empty" in (b.term.get("cond") or "") and ("f:" + P + "AddressParser::port_") in (b.term.get("refs") or [])]
     thr = [e for e in cfg.events_from_block(ap, pt[0].succs[0], stop=lambda e: e["k"] == "throw") if e["k"] == "throw" and "invalid_argument" in (e.get("type") or "")] if pt else []
     ck.ob("C19-R2", "AddressParser/empty-port-rejected", bool(pt) and bool(thr), ap.loc, ap, "port_.empty() after a colon throws invalid_argument")
     # bracket discipline: in the IPv6 branch a bail-out tests the character after ']' against ':'
-    br = [b for b in ap.blocks.values() if b.term and b.term.get("k") in ("if", "land") and b.term.get("cmp") == "!=" and b.term.get("rconst") == "c:58" and "end_pos" in ((b.term.get("lhs") or {}).get("t") or "")]
-    thr = []
-    for b in br:
-        thr += [e for e in cfg.events_from_block(ap, b.succs[0], stop=lambda e: e["k"] == "throw") if e["k"] == "throw" and "invalid_argument" in (e.get("type") or "")]
-    hostset = [e for e in ap.events("call") if e.get("op") == "=" and strip_tmpl((e.get("recv") or {}).get("f") or "") == P + "AddressParser::host_"]
+    pname = ap.params[0]["name"] if ap.params else "data"
+    # edges on which a character of the input (data[...]) is known to differ from ':'
+    bad_edges = []
+    for b in ap.blocks.values():
+        if not b.term or len(b.succs) != 2 or b.term.get("rconst") != "c:58":
+            continue
+        for k in (0, 1):
+            r = lib.rel_on_edge(b.term, k)
+            if b.succs[k] is not None and r is not None and r[1] == "!=" and ((r[0].get("root") == pname) or (r[0].get("t") or "").startswith(pname + "[")):
+                bad_edges.append((b, k))
+    br = [b for b, _k in bad_edges]
+    is_inv = lambda e: e["k"] == "throw" and "invalid_argument" in (e.get("type") or "")
+    all_throw = bool(bad_edges) and all(not [x for x in cfg.exits_without(ap, is_inv, start_block=b.succs[k]) if x.kind != "throw"] for b, k in bad_edges)
     fam6 = [e for e in ap.events("assign") if strip_tmpl(e["lhs"].get("f") or "") == P + "AddressParser::family_" and "10" in str(e.get("const"))]
     # the test may be the right-hand side of a `size check && char check` chain: the chain's first block must dominate acceptance
     heads = list(br)
     for b in ap.blocks.values():
-        if b.term and b.term.get("k") == "land" and b.succs[0] in [x.id for x in br]:
+        if b.term and b.term.get("k") == "land" and any(s_ in [x.id for x in br] for s_ in b.succs if s_ is not None):
             heads.append(b)
-    ok = bool(br) and bool(thr) and bool(fam6) and all(not any(x is fam6[0] for x in cfg.events_from_block(ap, b.succs[0])) for b in br) and \
+    ok = all_throw and bool(fam6) and all(not any(x is fam6[0] for x in cfg.events_from_block(ap, b.succs[k])) for b, k in bad_edges) and \
         any(b.id in cfg.dominators(ap).get(fam6[0].block, ()) for b in heads)
     ck.ob("C19-R2", "AddressParser/only-colon-after-bracket", ok, br[0].term and "%s:%s" % (ap.file, br[0].term.get("l")) if br else ap.loc, ap,
           "text after ']' that does not start with ':' throws invalid_argument before the literal is accepted" if ok else
